@@ -70,7 +70,7 @@ def run_c04(ctx):
     instrs = scalar_instrs(ctx.registry)
     mc_stage(ctx, "scalar", instrs, dict(IntVals=IP6 if q else IP10, FloatVals=FP7 if q else FP15, NameVals=["a", "b", "x y"],
                                           DInt=2, DFloat=2, DBool=2, DName=2))
-    run_events(ctx, "rand_scalar", random_instr_cases(ctx, instrs, 30 if q else 1500, ctx.seed))
+    run_events(ctx, "rand_scalar", random_instr_cases(ctx, instrs, 30 if q else 5000, ctx.seed))
     # NAME instructions on long names (every length class around powers of two)
     cs = []
     for i, (la, lb) in enumerate([(1, 1), (100, 200), (2047, 2048), (2048, 2048), (4095, 1), (4096, 4096), (5000, 3), (3, 9000)] if q else
@@ -100,7 +100,7 @@ def run_c05(ctx):
     mc_stage(ctx, "stack_big", big, dict(IntVals=[-1, 0, 1, 2], CodePool="big", DInt=1, DCode=2 if q else 3, DExec=2 if q else 3))
     ints = [n for n in stack_instrs(reg) if n.startswith("INTEGER.")]
     mc_stage(ctx, "stack_int", ints, dict(IntVals=[-2147483648, -1, 0, 1, 2, 3, 2147483647] if not q else [-1, 0, 1, 2, 2147483647], DInt=d + 1))
-    run_events(ctx, "rand_stack", random_instr_cases(ctx, stack_instrs(reg), 20 if q else 600, ctx.seed))
+    run_events(ctx, "rand_stack", random_instr_cases(ctx, stack_instrs(reg), 20 if q else 1500, ctx.seed))
 
 
 def points_of(t):
@@ -187,12 +187,12 @@ def run_c08(ctx):
     mc_stage(ctx, "code_subst", three, dict(CodePool="pairs", DCode=3, DInt=0))
     if not q:
         mc_stage(ctx, "code_subst_trees", three, dict(CodePool="trees", DCode=3, DInt=0))
-    run_events(ctx, "rand_code", random_instr_cases(ctx, instrs, 30 if q else 1500, ctx.seed, small_ints=True))
-    run_events(ctx, "code_points", code_point_cases(ctx, 150 if q else 6000))
+    run_events(ctx, "rand_code", random_instr_cases(ctx, instrs, 30 if q else 5000, ctx.seed, small_ints=True))
+    run_events(ctx, "code_points", code_point_cases(ctx, 150 if q else 20000))
     # the Item functions themselves (API level)
     g = gen.Gen(ctx.seed + 19, ctx.registry, small_ints=True)
     ops = []
-    for i in range(200 if q else 8000):
+    for i in range(200 if q else 30000):
         t = nested_tree(g, g.r.randint(1, 14)); pts = points_of(t); k = g.r.randrange(len(pts))
         needle = pts[k] if g.r.random() < 0.8 else nested_tree(g, 2)
         repl = nested_tree(g, g.r.randint(1, 3))
@@ -319,9 +319,9 @@ def run_c19(ctx):
     mc_stage(ctx, "listrec", LISTREC, dict(CodePool="one", VecPool="ids", IntVals=[5], FloatVals=[F["one"]], NameVals=["a"], DInt=2, DFloat=1, DBool=1, DName=1, DCode=2, DExec=1, DVec=1 if q else 2))
     mc_stage(ctx, "listset_addr", ["LIST.SET"], dict(CodePool="abc", VecPool="ids", IntVals=[-1, 0, 1, 2, 5], FloatVals=[F["one"]], NameVals=["a"], DInt=1, DFloat=0, DBool=0, DName=0, DCode=3, DExec=1, DVec=1))
     mc_stage(ctx, "listval", LISTVAL, dict(CodePool="recs", IntVals=[-1, 0, 1, 2, 3, 5] if not q else [-1, 0, 1, 2, 5], DInt=2, DCode=2 if q else 3))
-    run_events(ctx, "rand_list", random_instr_cases(ctx, LISTREC + LISTVAL, 60 if q else 3000, ctx.seed, small_ints=True))
+    run_events(ctx, "rand_list", random_instr_cases(ctx, LISTREC + LISTVAL, 60 if q else 8000, ctx.seed, small_ints=True))
     # LIST.GET followed by execution of the pushed record: chains of steps validated one by one
-    run_events(ctx, "list_roundtrip", list_roundtrip_cases(ctx, 100 if q else 3000))
+    run_events(ctx, "list_roundtrip", list_roundtrip_cases(ctx, 100 if q else 10000))
 
 
 def run_c20_instr(ctx):
@@ -396,7 +396,7 @@ def run_c18_instr(ctx):
     q = ctx.tier == "quick"
     mc_stage(ctx, "graph", graph_instrs(ctx.registry), dict(IntVals=[-1, 0, 1, 2, 3, 10, 2147483647] if not q else [-1, 0, 1, 2, 3], FloatVals=[F["h"], F["nan"]] if not q else [F["h"]],
                                                              VecPool="small", DInt=3, DFloat=1, DVec=1))
-    cases = graph_sequence_cases(ctx, 40 if q else 2000)
+    cases = graph_sequence_cases(ctx, 40 if q else 8000)
     # STATESWITCH with ids that repeat (the later position wins), switches of every pattern, lengths that differ
     import itertools
     G = {"nodes": [{"id": 1, "st": 5}, {"id": 2, "st": 9}, {"id": 3, "st": 5}], "edges": [{"d": 2, "in": [{"o": 1, "w": F["h"]}]}]}
@@ -478,7 +478,7 @@ def run_c06(ctx):
     mc_stage(ctx, "control_big", ["CODE.QUOTE", "CODE.DO", "CODE.DO*", "CODE.IF", "EXEC.IF", "EXEC.K", "EXEC.S", "EXEC.Y", "EXEC.LOOP", "CODE.LOOP", "INTVECTOR.LOOP", "EXEC.="],
              dict(CodePool="big", IntVals=[0], DInt=0, DBool=1, DCode=2, DExec=2 if q else 3, VecPool="small", DVec=1))
     stages.behav_stage(ctx, "control", 4 if q else 9)
-    run_events(ctx, "random_loops", loop_program_cases(ctx, 40 if q else 1500))
+    run_events(ctx, "random_loops", loop_program_cases(ctx, 40 if q else 5000))
     # no step kind consults the configuration: every control instruction / step kind under small and odd limits,
     # and lists longer than every configured limit (growth cap 500, push limit 1000, 100 points)
     g = gen.Gen(ctx.seed + 61, ctx.registry, small_ints=True)
@@ -511,7 +511,7 @@ def run_c07(ctx):
     toks = [ins(t + ".DEFINE") for t in ("BOOLEAN", "INTEGER", "FLOAT", "CODE", "EXEC", "BOOLVECTOR", "INTVECTOR", "FLOATVECTOR")] + \
            [ins("NAME.QUOTE"), ins("CODE.DEFINITION"), ins("CODE.QUOTE"), ins("NAME.DUP"), ins("NAME.POP")]
     cases = []
-    for i in range(60 if q else 3000):
+    for i in range(60 if q else 25000):
         s = g.state(depth=2)
         prog = []
         for _ in range(g.r.randint(3, 25)):
@@ -580,7 +580,7 @@ def run_c02(ctx):
     # random RAND-free programs x random limits: run() against the independent chain of single steps
     g = gen.Gen(ctx.seed + 41, RANDFREE(ctx.registry))
     cs = []
-    for i in range(150 if q else 8000):
+    for i in range(150 if q else 30000):
         s = g.program_state(g.r.randint(1, 30))
         lim = g.r.choice([-1, 0, 1, 2, 3, 5, 8, 13, 21, 40])
         s["cfg"]["push_limit"] = lim
@@ -661,7 +661,7 @@ def run_c16(ctx):
         api_model(ctx, "MC_Stack", "mc_stack_" + elem, cfg, lambda c, elem=elem: {"api": "stack", "elem": elem, "init": c["init"], "ops": c["ops"]})
     g = gen.Gen(ctx.seed + 51, ctx.registry)
     cs = []
-    for i in range(40 if q else 2000):
+    for i in range(40 if q else 8000):
         elem = "int" if i % 2 == 0 else "item"
         el = (lambda: g.int()) if elem == "int" else (lambda: g.item(2, plain=True))
         cs.append({"id": "stackhist-%05d" % i, "api": "stack", "elem": elem, "init": [el() for _ in range(g.r.randint(0, 4))],
@@ -710,7 +710,7 @@ def run_c18(ctx):
     api_model(ctx, "MC_Graph", "mc_graph", cfg, lambda c: {"api": "graph", "nid": c["nid"], "ops": c["ops"]}, workers=12)
     g = gen.Gen(ctx.seed + 71, ctx.registry)
     cs = []
-    for i in range(40 if q else 2000):
+    for i in range(40 if q else 6000):
         ops, nn = [], 0
         for _ in range(g.r.randint(20, 200)):
             k = g.r.random()
@@ -896,7 +896,7 @@ def run_c11(ctx):
         while rest > 0:
             k = g.r.randint(1, rest); kids.append(tree(k)); rest -= k
         return {"k": "list", "v": kids}
-    for i in range(200 if q else 20000):
+    for i in range(200 if q else 50000):
         s = gen.empty_state()
         t = tree(g.r.randint(1, 25))
         s["exec"] = [t]
@@ -1018,7 +1018,7 @@ def run_c13(ctx):
     g = gen.Gen(ctx.seed + 111, ctx.registry)
     fb = gen.f2b
     N = 12 if q else 40
-    draws = 5 if q else 60
+    draws = 5 if q else 200
     ops = []
     sps = [0.0, 0.05, 0.12, 0.25, 0.5, 0.51, 0.75, 0.85, 1.0, -0.1, 1.5, float("nan"), float("inf"), -0.0]
     for n in list(range(0, N + 1)) + [-1, -5, 100, 1000]:
@@ -1060,7 +1060,7 @@ def run_c13(ctx):
     # the RAND instructions through the interpreter
     mc_stage(ctx, "rand_instr", RAND, dict(IntVals=[-1, 0, 1, 3, 5], FloatVals=[F["zero"], F["h"], F["one"], F["x15"], F["mone"], F["nan"], F["inf"]], DInt=3, DFloat=2))
     cs = []
-    for i in range(100 if q else 6000):
+    for i in range(100 if q else 30000):
         s = g.state(depth=3)
         name = g.r.choice(RAND)
         s["int"] = [g.r.choice([0, 1, 2, 5, 17, -1, -3])] + [g.r.randint(-5, 20) for _ in range(2)] + s["int"]
@@ -1114,7 +1114,7 @@ def run_c14(ctx):
     reg = [n for n in RANDFREE(ctx.registry) if n != "GRAPH.NODE*ADD"]
     g = gen.Gen(ctx.seed + 121, reg)
     cases = []
-    for i in range(150 if q else 5000):
+    for i in range(150 if q else 12000):
         s = g.program_state(g.r.randint(1, 40))
         cases.append({"id": "det-%05d" % i, "pre": s, "steps": 150})
     # every RAND-free instruction in random states with small operands (history- and thread-dependence of a
@@ -1175,7 +1175,7 @@ def run_c14(ctx):
     loopy = {"EXEC.Y", "EXEC.LOOP", "CODE.LOOP", "INTVECTOR.LOOP", "CODE.DO", "CODE.DO*", "EXEC.DUP"}
     toks = [n for n in reg if n not in loopy]
     cs = []
-    for i in range(15 if q else 400):
+    for i in range(15 if q else 1200):
         parts, depth = [], 0
         for _ in range(g.r.randint(1, 30)):
             k = g.r.random()
@@ -1243,7 +1243,7 @@ def run_c15(ctx):
     for name in ctx.registry:
         if name in listed or name == "EXEC.CMD":
             continue
-        for i in range(2 if q else 12):
+        for i in range(2 if q else 30):
             s = g.state(depth=3)
             s["int"] = [g.r.choice([2147483647, -2147483648, 2147483646, 100000, -1]) for _ in range(4)] + s["int"]
             s["float"] = [g.r.choice(gen.F_POOL) for _ in range(3)] + s["float"]
